@@ -1062,4 +1062,150 @@ theorem XS.batchLoop (hj : InjX inj) (fuel : Nat) {s : BSt} (h : XS s) : XS (Bac
   ⟨PA.batchLoop_closed PAI.closed inj hj.a fuel s h.a, PC.batchLoop_ok PC.FInv_closed.toClosedB hj.c fuel s h.c,
    by obtain ⟨pf, hf⟩ := h.f; exact ⟨pf, FI.batchLoop hj.f fuel s hf⟩⟩
 
+/-! ### a poll, the exit loop, every schedule -/
+
+theorem CI.batchLoop (hj : InjX inj) (fuel : Nat) : ∀ (s : BSt) (fz : Bool), CI fz s → XS s →
+    CI false (Backend.batchLoop inj fuel s) := by
+  induction fuel with
+  | zero => intro s fz h _; exact h.weaken
+  | succ n ih =>
+    intro s fz h hx
+    unfold Backend.batchLoop
+    simp only
+    have h1 : CI fz (Backend.hasPending s).1 := h.frel (frel_hasPending s)
+    have x1 := hx.hasPending
+    split
+    · exact h1.weaken
+    · have h2 := h1.processLowest hj.r x1.ext
+      have x2 := x1.processLowest hj
+      split
+      · exact h2
+      · exact ih _ _ (h2.frel (hj.r _ 4)) (x2.injStep hj 4)
+
+theorem CI.poll (hj : InjX inj) {fz : Bool} {s : BSt} (h : CI fz s) (hx : XS s) : CI false (Backend.poll inj s) := by
+  have h1 : CI fz (Backend.populate inj s).1 := h.frel (frel_populate hj.r s)
+  have x1 := hx.populate hj
+  unfold Backend.poll
+  rcases hpop : Backend.populate inj s with ⟨s1, count⟩
+  rw [hpop] at h1 x1
+  simp only at h1 x1 ⊢
+  split
+  · split
+    · exact h1.processLowest hj.r x1.ext
+    · exact CI.batchLoop hj _ _ _ h1 x1
+  · have h5 : CI fz (inj s1 5) := h1.frel (hj.r _ 5)
+    have h6 : CI true (Backend.flushSinks (inj s1 5)) := h5.flushSinks
+    have h7 : CI true (Backend.checkFailures inj (Backend.flushSinks (inj s1 5))) := h6.frel (frel_checkFailures hj.r _)
+    have h8 := h7.frel (frel_allEmpty _)
+    split
+    · exact ((h8.frel (frel_cleanupContexts _)).cleanupLoggers hj.r).weaken
+    · exact h8.weaken
+
+theorem XS.poll (hj : InjX inj) {s : BSt} (h : XS s) : XS (Backend.poll inj s) :=
+  ⟨PA.poll_closed PAI.closed inj hj.a s h.a, PC.poll_ok PC.FInv_closed.toClosedB hj.c s h.c,
+   by obtain ⟨pf, hf⟩ := h.f; exact ⟨pf, hf.poll hj.f⟩⟩
+
+theorem XS.exitLoop (hj : InjX inj) (tick fuel : Nat) {s : BSt} (h : XS s) : XS (Backend.exitLoop inj tick fuel s) :=
+  ⟨PA.exitLoop_closed PAI.closed inj hj.a tick fuel s h.a, PC.exitLoop_ok PC.FInv_closed.toClosedB hj.c tick fuel s h.c,
+   by obtain ⟨pf, hf⟩ := h.f; exact ⟨pf, FI.exitLoop hj.f tick fuel s hf⟩⟩
+
+theorem XS.clock {s : BSt} (h : XS s) (n : Nat) : XS { s with now := n } :=
+  ⟨PAI.closed.frame s _ h.a (PA.Frame.of_eq rfl rfl rfl rfl rfl rfl rfl rfl rfl rfl rfl rfl rfl (fun _ hf => hf)),
+   PC.FInv_closed.clock s n h.c, by obtain ⟨pf, hf⟩ := h.f; exact ⟨pf, hf.frame rfl⟩⟩
+
+theorem CI.exitLoop (hj : InjX inj) (tick fuel : Nat) : ∀ (s : BSt) (fz : Bool), CI fz s → XS s →
+    CI false (Backend.exitLoop inj tick fuel s) := by
+  induction fuel with
+  | zero => intro s fz h _; exact h.weaken
+  | succ n ih =>
+    intro s fz h hx
+    unfold Backend.exitLoop
+    simp only
+    have h1 : CI fz (Backend.allEmpty s).1 := h.frel (frel_allEmpty s)
+    have x1 := hx.allEmpty
+    split
+    · have h2 : CI true (Backend.flushSinks (Backend.checkFailures inj (Backend.allEmpty s).1)) :=
+        (h1.frel (frel_checkFailures hj.r _)).flushSinks
+      exact ((h2.frel (frel_cleanupContexts _)).cleanupLoggers hj.r).weaken
+    · have h2 : CI fz { (Backend.allEmpty s).1 with now := (Backend.allEmpty s).1.now + tick } :=
+        h1.frel (FRel.ofEq rfl rfl rfl rfl rfl rfl)
+      have x2 := x1.clock ((Backend.allEmpty s).1.now + tick)
+      have h3 := h2.frel (frel_populate hj.r _)
+      have x3 := x2.populate hj
+      rcases hpop : Backend.populate inj { (Backend.allEmpty s).1 with now := (Backend.allEmpty s).1.now + tick } with ⟨s1, count⟩
+      rw [hpop] at h3 x3
+      simp only at h3 x3 ⊢
+      split
+      · exact ih _ _ (CI.batchLoop hj _ _ _ h3 x3) (x3.batchLoop hj _)
+      · exact ih _ _ h3 x3
+
+/-- the invariant along a schedule -/
+structure TI (s : BSt) : Prop where
+  x : XS s
+  c : CI false s
+
+theorem XS.front {s : BSt} (h : XS s) (f : FOp) : XS (Backend.applyFront s f).1 :=
+  ⟨PAI.closed.front s f h.a, PC.FInv_closed.front s f h.c, by obtain ⟨pf, hf⟩ := h.f; exact ⟨pf, hf.applyFront f⟩⟩
+
+theorem TI.applyOp {s : BSt} (h : TI s) (o : Op) : TI (Backend.applyOp s o).1 := by
+  cases o with
+  | front f => exact ⟨h.x.front f, h.c.frel (frel_applyFront s f)⟩
+  | poll table =>
+    simp only [Backend.applyOp]
+    split
+    · exact h
+    · have hx0 : XS { s with siteCnt := [] } :=
+        ⟨PAI.closed.frame s _ h.x.a (PA.Frame.of_eq rfl rfl rfl rfl rfl rfl rfl rfl rfl rfl rfl rfl rfl (fun _ hf => hf)),
+         PC.FInv_closed.siteCnt s [] h.x.c, by obtain ⟨pf, hf⟩ := h.x.f; exact ⟨pf, hf.frame rfl⟩⟩
+      have hc0 : CI false { s with siteCnt := [] } := h.c.frel (FRel.ofEq rfl rfl rfl rfl rfl rfl)
+      exact ⟨hx0.poll (injX_runInj table), hc0.poll (injX_runInj table) hx0⟩
+  | exit =>
+    simp only [Backend.applyOp]
+    split
+    · exact h
+    · have hx0 : XS { s with siteCnt := [] } :=
+        ⟨PAI.closed.frame s _ h.x.a (PA.Frame.of_eq rfl rfl rfl rfl rfl rfl rfl rfl rfl rfl rfl rfl rfl (fun _ hf => hf)),
+         PC.FInv_closed.siteCnt s [] h.x.c, by obtain ⟨pf, hf⟩ := h.x.f; exact ⟨pf, hf.frame rfl⟩⟩
+      have hc0 : CI false { s with siteCnt := [] } := h.c.frel (FRel.ofEq rfl rfl rfl rfl rfl rfl)
+      have x1 := hx0.exitLoop (injX_runInj []) 1000 100000
+      have c1 := CI.exitLoop (injX_runInj []) 1000 100000 _ _ hc0 hx0
+      exact ⟨⟨PAI.closed.frame _ _ x1.a (PA.Frame.of_eq rfl rfl rfl rfl rfl rfl rfl rfl rfl rfl rfl rfl rfl (fun _ hf => hf)),
+         PC.FInv_closed.gone _ x1.c, by obtain ⟨pf, hf⟩ := x1.f; exact ⟨pf, hf.frame rfl⟩⟩,
+        c1.frel (FRel.ofEq rfl rfl rfl rfl rfl rfl)⟩
+
+theorem TI.runOps {s : BSt} (h : TI s) (ops : List Op) : TI (Backend.runOps s ops) := by
+  unfold Backend.runOps
+  induction ops generalizing s with
+  | nil => exact h
+  | cons o os ih => rw [List.foldl_cons]; exact ih (h.applyOp o)
+
 end Backend.PB
+
+namespace Backend
+open Backend.PB
+
+/-- a freshly started system, for the flush contract: the initial states of the other bundles (no thread, no event,
+    `PC.FInv`: names resolve, sinks alive and distinct, no backtrace storage — every `LoggerFresh` state), no flag raised or logged yet, and the F12 repair in
+    force (the flush covers loggers marked invalid) -/
+structure StartC (s : BSt) : Prop where
+  a : PA.Fresh s
+  c : PC.FInv s
+  f : StartF s
+  flagLog : s.flagLog = []
+  f12 : s.cfg.flushInvalidatedLoggers = true
+
+namespace PB
+
+theorem start_TI {s : BSt} (h : StartC s) : TI s := by
+  have hinv := h.a.inv
+  refine ⟨⟨⟨⟨hinv.a, hinv.b⟩, ⟨hinv.w, hinv.p⟩⟩, h.c, ⟨[], start_FI h.f⟩⟩, ?_⟩
+  have hlog : s.log = [] := h.a.log
+  refine ⟨h.f12, ?_, (fun hf => by cases hf), ?_, ?_, ?_, ?_⟩
+  · intro sid hs; rw [hlog] at hs; cases hs
+  · intro fn hfn; rw [h.flagLog] at hfn; cases hfn
+  · intro fn hfn; rw [h.flagLog] at hfn; cases hfn
+  · intro f hf; rw [h.f.flags] at hf; cases hf
+  · intro fn hfn; rw [h.flagLog] at hfn; cases hfn
+
+end PB
+end Backend
